@@ -279,3 +279,103 @@ def check_state_insert(ctx, rule):
         ok = rows is not None and len(rows) == 1 and rows[0][0] == "ns1" and (rows[0][1] == "state-with-running-sessions" if present else True)
         ctx.check(ok, rule, b.path, "mark-as-syncing[%s]" % ("marked-already" if present else "new"),
                   "set afterwards: %s; spec: %s" % (after, "the existing per-peer states are kept" if present else "the document is in the set"), b.sp)
+
+
+# ------------------------------------------------------------------------------------------------ completion of a session
+OSF = "engine::live::LiveActor::on_sync_finished"
+
+
+def eval_sync_finished(f, ok, finish, subs_send, num_recv=0, queued=0):
+    """LiveActor::on_sync_finished evaluated: `ok` - the session's result; `finish` - what NamespaceStates::finish answers
+    (None, or (started, resync flag)); `subs_send` - what SubscribersMap::send reports (was there a subscriber)"""
+    from . import feval as E, coll
+    log = []
+    C = coll.Collections(f)
+
+    def oracle(kind, name, payload, site):
+        if kind == "await":
+            nm = str(name)
+            if nm == "fut:subscribers.send":
+                return E.Int(1 if subs_send else 0)
+            if nm.startswith("fut:register_useful_peer"):
+                return E.Ok(E.UNIT)
+            if nm.startswith("fut:"):
+                return E.UNIT
+            return None
+        if kind in ("cmp", "eq"):
+            a, b2 = str(name), str(payload)
+            if "num_recv" in a or "num_recv" in b2:
+                o = 1 if num_recv > 0 else 0
+                return (o == 0) if kind == "eq" else (o if "num_recv" in a else -o)
+            return None
+        if kind != "call":
+            return None
+        t, args, it = payload
+        names = [it.tokname(a).strip("&*") for a in args]
+        if mir.callee_matches(t, r"engine::state::NamespaceStates::finish$"):
+            log.append(("finish", names[1:3]))
+            return E.NONE if finish is None else E.Some(("tuple", [E.Tok("started"), E.Int(1 if finish else 0)]))
+        if mir.callee_matches(t, r"engine::live::LiveActor::<D>::sync_with_peer$|engine::live::LiveActor::sync_with_peer$"):
+            log.append(("sync_with_peer", names[1:3] + [E.describe(it.resolve(args[3]), f)]))
+            return E.UNIT
+        if mir.callee_matches(t, r"actor::SyncHandle::register_useful_peer$"):
+            log.append(("register_useful_peer", names[1:]))
+            return E.Tok("fut:register_useful_peer")
+        if mir.callee_matches(t, r"engine::live::SubscribersMap::send$"):
+            return E.Tok("fut:subscribers.send")
+        if mir.callee_matches(t, r"engine::live::LiveActor(::<D>)?::broadcast_neighbors$"):
+            log.append(("broadcast_neighbors", names[1:2]))
+            return E.Tok("fut:broadcast")
+        if name == "contains_namespace":
+            return E.Int(queued)
+        if name in ("set_may_emit_ready",):
+            return E.Some(E.UNIT)
+        if name == "encode" and "AuthorHeads" in ((t["f"].get("full") or "") + (t["f"].get("path") or "")):
+            return E.Ok(E.Tok("encoded-heads"))
+        if name in ("max_message_size", "now", "to_string", "as_bytes", "into", "from", "clone"):
+            return E.Tok("%s(%s)" % (name, ",".join(names)))
+        return C.handle(kind, name, payload, site)
+    if ok:
+        outcome = E.struct(f, "sync::SyncOutcome", heads_received=E.Tok("heads"), num_recv=E.Tok("num_recv"), num_sent=E.Tok("num_sent"))
+        details = E.struct(f, "net::SyncFinished", namespace=E.Tok("namespace"), peer=E.Tok("peer"), outcome=outcome, timings=E.Tok("timings"))
+        result = E.Ok(details)
+    else:
+        result = E.Err(E.Tok("sync-error"))
+    try:
+        ret, hp, evs = E.run_async(f, OSF, [E.href("this"), E.Tok("namespace"), E.Tok("peer"), E.Tok("origin"), result], {"this": E.Tok("actor")}, oracle)
+        return E.describe(ret, f), log
+    except E.Unsupported as e:
+        return "UNSUPPORTED-FORM: %s" % e, log
+
+
+def check_sync_finished(ctx, rule, clause):
+    """clause "follow-up": whenever finish() says that a report was refused while the session ran (resync flag), exactly one dial
+    (reason Resync) to that peer for that document follows - whatever the session's result, whether or not anybody is subscribed,
+    whether or not content is pending; no dial otherwise. clause "useful-peer": the peer is registered as useful for the document
+    exactly once after a successful session and never after a failed or declined one ("a declined request changes nothing in
+    the store")"""
+    f = ctx.facts
+    b = f.body(OSF + "::{closure#0}")
+    ctx.touch(b)
+    for ok in (1, 0):
+        for finish in (None, 0, 1):
+            for subs in (1, 0):
+                for queued in (0, 1):
+                    got, log = eval_sync_finished(f, ok, finish, subs, num_recv=1 if ok else 0, queued=queued)
+                    key = "completion[%s,finish=%s,subscribers=%d,pending-content=%d]" % ("session-ok" if ok else "session-failed", {None: "not-the-owner", 0: "freed", 1: "freed+resync"}[finish], subs, queued)
+                    problems = []
+                    if got.startswith("UNSUPPORTED"):
+                        problems.append(got)
+                    dials = [x for x in log if x[0] == "sync_with_peer"]
+                    regs = [x for x in log if x[0] == "register_useful_peer"]
+                    if clause == "follow-up":
+                        want = 1 if finish == 1 else 0
+                        if len(dials) != want or any(d[1][:2] != ["namespace", "peer"] or "Resync" not in d[1][2] for d in dials):
+                            problems.append("follow-up dials %s, spec %d (Resync, this document, this peer)" % ([d[1] for d in dials], want))
+                        if [x for x in log if x[0] == "finish"] != [("finish", ["namespace", "peer"])]:
+                            problems.append("finish is not reported once for (namespace, peer): %s" % [x for x in log if x[0] == "finish"])
+                    else:
+                        want = 1 if ok else 0
+                        if len(regs) != want or any(r[1][0] != "namespace" or "peer" not in r[1][1] for r in regs):
+                            problems.append("useful-peer registrations %s, spec %d" % ([r[1] for r in regs], want))
+                    ctx.check(not problems, rule, OSF, key + "." + clause, "effects %s" % log, b.sp, bad_detail="; ".join(problems) + " - effects %s" % log)
